@@ -4,6 +4,8 @@
 //	CASE <n> <kind> mustfail=<0|1>
 //	F <what was assembled>                (`F S <source, line breaks written \n>` for generated sources)
 //	FS <text of the file set>             (files mode: the oracle reads the cpdef / ioatt lines)
+//	AL n0,n1,..                           (json mode: instruction counts of the assembly saved per processor)
+//	PB                                    (bondgo machines: every processor port must be bonded)
 //	R ok | R err <class> <stage>
 //	M/C/W/D/II/IO/LK/E                    the emitted machine
 //
@@ -50,6 +52,10 @@ func report(id int, kind string, mustFail bool, what string, bm *bondmachine.Bon
 	out.Line("F %s", what)
 	if len(asmLens) > 0 {
 		out.Line("AL %s", strings.Join(asmLens, ","))
+	}
+	if strings.HasPrefix(kind, "bondgo:") {
+		// bondgo creates a processor port for a declared IO only: each one is bonded to another processor or is a port of the machine
+		out.Line("PB")
 	}
 	if fileSetText != "" {
 		out.Line("FS %s", strings.ReplaceAll(strings.TrimRight(fileSetText, "\n"), "\n", "\\n"))
